@@ -316,4 +316,149 @@ theorem persist_converges_example :
       s.main = some [headerLine, "a.com.".toList, "*.b.com.".toList] := by
   decide
 
+/-! ## 4. Reload
+
+`loadNames r names` is `parseHostFile`'s loop over the names a file lists
+(`if !b.Exists(n) { b.set(n) }`), `IsNameOf b n` says `n` is a line the snapshot
+of `b` contains (`e` for a plain entry, `*.s` for a wildcard suffix `s`).  The
+order of the lines is Go map iteration order, i.e. arbitrary: the theorems hold
+for every list `names` with the right elements.  `WF b` is what `setLocked`
+maintains (theorem `wf_api`). -/
+
+/-- the maps stay well-formed under every API mutation whose keys are properly
+escaped (`isFqdn (fqdn k)`: the key does not end in a dangling backslash). -/
+theorem wf_api (b : Mem) (hwf : WF b) (op : MutOp)
+    (hkeys : match op with
+      | .set k => isFqdn (fqdn k) = true
+      | .setBatch ks => ∀ k ∈ ks, isFqdn (fqdn k) = true
+      | _ => True) :
+    WF (applyOp b op).1 := by
+  cases op with
+  | set k => exact wf_setLocked b k hwf hkeys
+  | remove k => exact wf_removeLocked b k hwf
+  | setBatch ks =>
+    simp only [applyOp]
+    induction ks generalizing b with
+    | nil => exact hwf
+    | cons k t ih =>
+      simp only [setBatchLocked]
+      exact ih _ (wf_setLocked b k hwf (hkeys k (by simp))) (fun x hx => hkeys x (List.mem_cons_of_mem _ hx))
+  | removeBatch ks =>
+    simp only [applyOp]
+    induction ks generalizing b with
+    | nil => exact hwf
+    | cons k t ih =>
+      simp only [removeBatchLocked]
+      exact ih _ (wf_removeLocked b k hwf) trivial
+
+theorem wf_empty (w : List Str) : WF { m := [], wild := [], w := w } :=
+  ⟨by simp, by simp, by simp, by simp, by simp⟩
+
+/-- **Reload answers the same.**  Whatever the order of the lines, the list
+reloaded from the file of `b` (same whitelist) gives, for every name, the answer
+`b` gives.  NOTE the scope: this is a statement about the two lists as they are
+right after the reload.  They are not the same list (`reload_ne_memory`), so the
+equivalence does not survive a later mutation (`reload_then_remove_diverges`). -/
+theorem reload_match_equivalent (b : Mem) (hwf : WF b) (names : List Str)
+    (hnames : ∀ n, n ∈ names ↔ IsNameOf b n) (q : Str) :
+    «exists» (loadNames { m := [], wild := [], w := b.w } names) q = «exists» b q := by
+  have hsub0 : Sub { m := [], wild := [], w := b.w } b := ⟨by simp, by simp, rfl⟩
+  obtain ⟨hsub, _, _, hcm, hcw⟩ :=
+    loadNames_spec b hwf names (fun n hn => (hnames n).mp hn) _ hsub0
+  generalize loadNames { m := [], wild := [], w := b.w } names = R at *
+  rw [Bool.eq_iff_iff]
+  unfold «exists»
+  rw [existsCanon_iff, existsCanon_iff, hsub.w]
+  generalize canonical q = k
+  have key : Cov R k ↔ Cov b k := by
+    constructor
+    · exact Cov_mono R b hsub.m hsub.wild k
+    · rintro ((h | ⟨s, hs, h⟩) | ⟨s, hs, h⟩)
+      · exact hcm k ((hnames k).mpr (Or.inl h)) h
+      · -- covered through a plain parent `s`
+        rcases hcm s ((hnames s).mpr (Or.inl h)) h with h' | ⟨t, ht, h'⟩
+        · exact Or.inl (Hit_of_suffix k s R.m hs h')
+        · exact Or.inr ⟨t, dotSuffixes_trans k s t hs ht, h'⟩
+      · -- covered through a wildcard suffix `s`
+        have hs0 : s ≠ [] := ((mem_dotSuffixes k s).mp hs).1
+        rcases hcw (wildName s) ((hnames _).mpr (Or.inr ⟨s, h, rfl⟩)) s h rfl with hc | hc
+        · rw [Cov, Hit, dotSuffixes_wildName] at hc
+          simp only [hs0, if_false, List.mem_cons] at hc
+          rcases hc with (h' | ⟨t, ht, h'⟩) | ⟨t, ht, h'⟩
+          · have := hwf.nowild_m _ (hsub.m _ h')
+            rw [isWildKey_wildName] at this; cases this
+          · rcases ht with rfl | ht
+            · exact Or.inl (Or.inr ⟨t, hs, h'⟩)
+            · exact Or.inl (Or.inr ⟨t, dotSuffixes_trans k s t hs ht, h'⟩)
+          · rcases ht with rfl | ht
+            · exact Or.inr ⟨t, hs, h'⟩
+            · exact Or.inr ⟨t, dotSuffixes_trans k s t hs ht, h'⟩
+        · exact Or.inr ⟨s, hs, hc⟩
+  exact and_congr_right (fun _ => key)
+
+/-
+Full statement of `reload_equals_memory` (FALSE, counter-witness `reload_ne_memory`):
+
+  ∀ b names, WF b → (∀ n, n ∈ names ↔ IsNameOf b n) →
+    let R := loadNames {w := b.w} names;  (∀ e, e ∈ R.m ↔ e ∈ b.m) ∧ (∀ s, s ∈ R.wild ↔ s ∈ b.wild)
+
+`parseHostFile` skips a name that is already covered, so entries under a listed
+parent are lost.  What holds needs `NoCover b`: no entry is covered by another.
+-/
+
+/-- **Reload is exactly memory** when no entry is covered by another entry. -/
+theorem reload_equals_memory_partial (b : Mem) (hwf : WF b) (hnc : NoCover b) (names : List Str)
+    (hnames : ∀ n, n ∈ names ↔ IsNameOf b n) :
+    let R := loadNames { m := [], wild := [], w := b.w } names
+    (∀ e, e ∈ R.m ↔ e ∈ b.m) ∧ (∀ s, s ∈ R.wild ↔ s ∈ b.wild) ∧ R.w = b.w := by
+  intro R
+  have hsub0 : Sub { m := [], wild := [], w := b.w } b := ⟨by simp, by simp, rfl⟩
+  obtain ⟨hsub, _, _, _, _⟩ := loadNames_spec b hwf names (fun n hn => (hnames n).mp hn) _ hsub0
+  obtain ⟨hm, hw⟩ := loadNames_exact b hwf hnc names (fun n hn => (hnames n).mp hn) _ hsub0
+  refine ⟨fun e => ⟨hsub.m e, fun h => hm e ((hnames e).mpr (Or.inl h)) h⟩,
+          fun s => ⟨hsub.wild s, fun h => hw _ ((hnames _).mpr (Or.inr ⟨s, h, rfl⟩)) s h rfl⟩, hsub.w⟩
+
+/-- Counter-witness to the full statement — **covered entries are dropped**:
+memory `{example.com., sub.example.com.}` reloads as `{example.com.}` when the
+parent's line comes first, and `{example.com., *.example.com.}` always does
+(`persist` writes the exact entries before the wildcards). -/
+theorem reload_ne_memory :
+    (loadNames {} ["example.com.".toList, "sub.example.com.".toList]).m = ["example.com.".toList] ∧
+    (loadNames {} ["example.com.".toList, "*.example.com.".toList]).wild = [] ∧
+    (loadNames {} ["sub.example.com.".toList, "example.com.".toList]).m =
+      ["sub.example.com.".toList, "example.com.".toList] := by
+  decide
+
+/-- … and this is why `reload_match_equivalent` is a statement about the moment
+of the reload only: after the same `Remove(example.com.)` the original list still
+blocks `sub.example.com.`, the reloaded one does not. -/
+theorem reload_then_remove_diverges :
+    let b : Mem := { m := ["example.com.".toList, "sub.example.com.".toList] }
+    let r : Mem := loadNames {} ["example.com.".toList, "sub.example.com.".toList]
+    «exists» b "sub.example.com.".toList = «exists» r "sub.example.com.".toList ∧
+    «exists» (removeLocked b "example.com.".toList).1 "sub.example.com.".toList = true ∧
+    «exists» (removeLocked r "example.com.".toList).1 "sub.example.com.".toList = false := by
+  decide
+
+/-- Second way a reload differs from memory — **the file has a syntax the keys
+do not know about**: a key with `#` or white space is written verbatim and read
+back as a different name (here `a.`), which memory never listed. -/
+theorem reload_mangles_file_syntax :
+    let b := (setLocked {} "a#b.example.com".toList).1
+    b.m = ["a#b.example.com.".toList] ∧
+    (parseHostFile {} (fileText (render { version := 1, exact := b.m, wild := b.wild }))).m = ["a.".toList] ∧
+    (parseHostFile {} (fileText (render { version := 1, exact := ["sp ace.example.com.".toList], wild := [] }))).m
+      = ["ace.example.com.".toList] := by
+  decide
+
+-- non-vacuity: a well-formed memory with nested entries, reloaded in the worst order
+example : «exists» (loadNames {} ["example.com.".toList, "sub.example.com.".toList, "*.ads.net.".toList]) "x.sub.example.com.".toList = true := by
+  decide
+
+/-- Facts regenerated from the tree: the first line `persist` writes is the one
+the model writes, and the loader takes it for a comment. -/
+theorem persist_header_is_a_comment :
+    SdnsVerif.Gen.C18.persist_header.toList = headerLine ∧ parseLine headerLine = [] := by
+  decide
+
 end SdnsVerif.Props.C18
